@@ -35,8 +35,18 @@ def num(v: str):
         return float(v)
 
 
-def conc(a, H, cls, salt=0):
+def conc(a, H, cls, salt=0, alias=None):
     k, v = a["k"], a["v"]
+    if alias is not None and k in ("list", "tuple", "tl"):
+        # gamma option: structurally equal containers of one operation are ONE object referenced several times
+        import json as _json
+        key = _json.dumps(a, sort_keys=True)
+        if key in alias:
+            return alias[key]
+        kids = [conc(c, H, cls, salt + i + 1, alias) for i, c in enumerate(a["c"])]
+        obj = kids if k == "list" else tuple(kids) if k == "tuple" else H.TagList(*kids)
+        alias[key] = obj
+        return obj
     if k == "str":
         return v
     if k == "num":
@@ -95,7 +105,8 @@ def run_hist(hist, H, recvkind, salt):
     for step, h in enumerate(hist):
         op = h["op"]
         act = op["act"]
-        args = [conc(a, H, cls, salt + step) for a in op["args"]]
+        alias = {} if (salt + step) % 3 == 0 else None
+        args = [conc(a, H, cls, salt + step, alias) for a in op["args"]]
         # is_tag_child on fresh copies of the arguments (iterators are one-shot)
         probe = [conc(a, H, cls, salt + step) for a in op["args"]]
         if act in ("Extend", "IAdd", "Add", "RAdd"):
@@ -201,7 +212,7 @@ class C14(Prop):
         if k == "str":
             v = rnd.choice(["", "a", "bc", "<x>", " "])
         elif k == "num":
-            v = rnd.choice(["0", "1", "-2", "2.5", "True", "False", "1e+22", "10"])
+            v = rnd.choice(["0", "1", "-2", "2.5", "True", "False", "1e+22", "10", "0.0", "-0.0", "1.0", "2.0", "2"])
         elif k == "none":
             v = ""
         else:
@@ -217,6 +228,10 @@ class C14(Prop):
                 op = {"act": act, "args": [], "i": 0, "j": 0, "n": 0}
                 if act in ("New", "Append"):
                     op["args"] = [self.rand_arg(rnd, rnd.choice([0, 1, 3, 6])) for _ in range(rnd.randint(1 if act == "Append" else 0, 3))]
+                    conts = [a for a in op["args"] if a["k"] in ("list", "tuple", "tl")]
+                    if conts and rnd.random() < 0.4:
+                        # the same container supplied twice in one call (e.g. a reused separator fragment)
+                        op["args"] = op["args"] + [{"k": "str", "v": "mid", "c": []}, rnd.choice(conts)]
                 elif act == "Insert":
                     op["args"] = [self.rand_arg(rnd, rnd.choice([0, 2, 5]))]
                     op["i"] = rnd.randint(-4, 6)
